@@ -9,7 +9,7 @@
    the loop body and final test of dict_union, its `recurse` default, the order of the two config layers,
    the default of the temporary --config_path argument, the WITHOUT_ROOT re-rooting condition, the default
    nested_mode of ArgumentParser / parse(), the discarded key and the exception class of
-   DataclassWrapper.set_default, and the "was a default set manually" test of FieldWrapper.default.
+   DataclassWrapper.set_default, the keys popped from the constructor arguments in _instantiate_dataclasses, and the "was a default set manually" test of FieldWrapper.default.
 
    Abstractions (stated in the evidence): a dict is an association list read by first match, key order is
    not modelled (dict_union sorts its keys; nothing downstream observes the order); argparse is
@@ -239,6 +239,7 @@ Section Parser.
   Variable reroot : nmode -> nat -> bool.              (* Gen: condition of the re-rooting in set_defaults *)
   Variable order : list phase.                         (* Gen: textual order of the two loops in parse_known_args *)
   Variable cli_default_is_ctor : bool.                 (* Gen: temp parser's --config_path has default=self.config_path *)
+  Variable ctor_strip : list string.                   (* Gen: keys _instantiate_dataclasses pops from the constructor arguments *)
 
   (* the loop `for wrapper in self._wrappers` of set_defaults; returns the wrappers and what was set in them *)
   Fixpoint sd_wrappers (ws : list (string * wtree)) (kw : list (string * ptree))
@@ -312,10 +313,10 @@ Section Parser.
     end.
 
   (* constructor_arguments[dest] is passed to the dataclass constructor after the fields and the nested
-     instances have been written into it: a key that is neither is an unexpected keyword argument *)
+     instances have been written into it and the stripped keys popped: any other key is an unexpected keyword argument *)
   Definition extra_kwargs (ca : ptree) (dw : string * wtree) : bool :=
     match subtree [fst dw] ca, snd dw with
-    | Some (PMap m), WClass fs => negb (forallb (fun k => str_in k (keys fs)) (keys m))
+    | Some (PMap m), WClass fs => negb (forallb (fun k => str_in k (keys fs) || str_in k ctor_strip) (keys m))
     | _, _ => false
     end.
 
